@@ -21,6 +21,7 @@ EXPLANATION = ('R-TABLE: every record token any GDSII writer path emits has an e
                'AREF the column/row counts written to COLROW are the same variables that scale the lattice corners, and the '
                'writer\'s count limit fits the reader\'s accessor. Numeric equality of reloaded coordinates and idempotence of '
                'repeated cycles are not decided.')
+ADVISORY = [('R-CLONE', r'^read_gds/XY:polygon~path-continuation')]
 ASSUMPTIONS = ['record grammar, data types and byte order are C03\'s obligations; 8-byte reals are C19\'s']
 XREF_FILES = ['src/library.cpp', 'src/polygon.cpp', 'src/flexpath.cpp', 'src/robustpath.cpp', 'src/reference.cpp', 'src/label.cpp']
 norm = C03.norm
